@@ -37,7 +37,7 @@ func (ex *Exec) pureContractCall(st *State, x *ssa.Call, pc Term) (Value, bool) 
 	if callee == nil {
 		return nil, false
 	}
-	spec, cf := ex.db.fnSpec(callee)
+	spec, cf := ex.db.fnSpecFor(callee, ex.pkgPath)
 	if spec == nil || !(spec.Pure || (spec.AssignsSet && len(spec.Assigns) == 0)) {
 		return nil, false
 	}
